@@ -11,6 +11,19 @@ import itertools
 import numpy as np
 
 PROPERTY = "C16"
+GROUPS = ["train"]
+MANIFEST = {
+    "design_ref": "DESIGN.md 4.16",
+    "technique": "Coq proof by induction over loss histories (Model/Train.v) + exact correspondence of the extracted model with the real loops",
+    "text": "Theorems (closed under the global context) about an executable Gallina model of the two training loops: for EVERY "
+            "validation-loss history, patience and max_epochs the loop stops at the first patience-exhausting epoch and never earlier, "
+            "records one loss pair per epoch, and returns the last / the argmin parameters; the variational loop runs exactly `steps` "
+            "steps and with return_best returns the parameters the minimum loss was evaluated at. The model is tied to /repo on every "
+            "run by driving the real fit_to_data / fit_to_variational_target with a scripted loss and a counting optimiser and requiring "
+            "exact equality with the extracted model on all permutation histories up to L=4 (6 thorough) plus tie-containing and long ones.",
+    "note": "Trusted: Coq kernel; extraction (ExtrOcamlBasic); OCaml driver; harness. Assumes losses totally ordered (no NaN); parameters "
+            "identified by the number of optimiser updates. The theorems are about the model; the code is tied by sampled exact correspondence.",
+}
 _state = {}
 
 
@@ -165,11 +178,11 @@ def run(ctx):
     for kind, vals in hs:
         L = len(vals)
         if kind == "perm":
-            grid = list(itertools.product(range(0, L + 1), range(0, L + 2), [True, False]))
+            grid = list(itertools.product(range(0, L + 1), range(0, L + 1), [True, False]))  # max_epochs <= len(history)
             if ctx.quick and L >= 4:
                 grid = [g for g in grid if r.random() < 0.35]
         else:
-            grid = [(int(r.integers(0, 5)), int(r.integers(0, L + 2)), bool(r.integers(0, 2))) for _ in range(3)]
+            grid = [(int(r.integers(0, 5)), int(r.integers(0, L + 1)), bool(r.integers(0, 2))) for _ in range(3)]
         for P, m, rb in grid:
             nb = int(r.integers(1, 3))
             cases.append(("data", kind, vals, P, m, rb, nb))
